@@ -1067,7 +1067,7 @@ Lemma rollback_inv c st s p' mk : wf c -> CInv c st s -> Inv c st p' ->
   (forall k, k <> mk -> blocks_of p' k = blocks_of (cp_pool s) k) ->
   CInv c st {| cp_pool := release c p' mk;
                cp_rev := fold_left (fun ri b => rev_remove ri (b_ip b) (b_start b)) (blocks_of p' mk) (cp_rev s);
-               cp_sess := cp_sess s |}.
+               cp_sess := cp_sess s; cp_pend := cp_pend s |}.
 Proof.
   intros W (I & R & [S C]) I' Hgrow Hother. unfold CInv; cbn [cp_pool cp_rev].
   split; [apply release_inv; auto|].
@@ -1083,12 +1083,18 @@ Proof.
     intros b0 Hb0 K. unfold rkey in K. rewrite Mb in K. inversion K. apply NE. eapply (i_excl _ _ _ I'); eauto.
 Qed.
 
-Lemma cstep_inv c st s o : wf c -> wfst c st -> CInv c st s -> CInv c st (fst (cstep repaired c s o)).
+Lemma pk_repaired k : pk repaired k = k.
+Proof. reflexivity. Qed.
+
+(* events whose dataplane add outcome is known before the next event keep pool and reverse index in step *)
+Lemma cstep_inv c st s o : wf c -> wfst c st -> sync_op o = true -> CInv c st s ->
+  CInv c st (fst (cstep repaired c s o)).
 Proof.
-  intros W WS CI. pose proof CI as (I & R & S).
-  destruct o as [sid k dp obs|sid k mk mb dp obs|sid k dl|sid mk mb bulk obs|mk mb|]; cbn [cstep].
-  - destruct (existsb (N.eqb sid) (cp_sess s)); [exact CI|]. apply pba_activate_inv; auto.
-  - destruct (existsb (N.eqb sid) (cp_sess s)); [exact CI|].
+  intros W WS SY CI. pose proof CI as (I & R & S).
+  destruct o as [sid k dp obs|sid k obs|sid ok|sid k mk mb dp obs|sid k dl|sid mk mb bulk obs|mk mb|];
+    try discriminate SY; cbn [cstep]; rewrite ?pk_repaired.
+  - destruct (busy s sid); [exact CI|]. apply pba_activate_inv; auto.
+  - destruct (busy s sid); [exact CI|].
     unfold restore; cbn [repaired v_validate v_rollback].
     destruct (restore_repaired c (cp_pool s) mk mb true) as [p'|] eqn:H; [|apply pba_activate_inv; auto].
     destruct dp; cbn [fst]; [eapply restore_commit_inv; eauto|].
@@ -1098,12 +1104,12 @@ Proof.
       intros k0 b0 H0. rewrite blocks_of_add. destruct (N.eqb_spec k0 mk) as [->|]; [apply in_or_app|]; auto.
     + destruct (restore_repaired_shape _ _ _ _ _ _ W I H) as [[-> Hb]|(addrs' & ->)]; [auto|].
       intros k0 NE. rewrite blocks_of_add. destruct (N.eqb_spec k0 mk); [contradiction|reflexivity].
-  - destruct (negb (existsb (N.eqb sid) (cp_sess s))); [exact CI|].
+  - destruct (negb (existsb (N.eqb sid) (cp_sess s)) && _); [exact CI|].
     destruct (blocks_of (cp_pool s) k) as [|b0 r0] eqn:B; cbn [fst]; [exact CI|].
     unfold CInv; cbn [cp_pool cp_rev]. split; [apply release_inv; auto|].
     rewrite <- B. apply release_comp_inv with (st := st); auto.
   - destruct (negb (bulk =? 0)).
-    { destruct (existsb (N.eqb sid) (cp_sess s)); [exact CI|]. apply pba_activate_inv; auto. }
+    { destruct (busy s sid); [exact CI|]. apply pba_activate_inv; auto. }
     unfold restore; cbn [repaired v_validate].
     destruct (restore_repaired c (cp_pool s) mk mb true) as [p'|] eqn:H; cbn [fst]; [|exact CI].
     eapply restore_commit_inv; eauto.
@@ -1113,10 +1119,12 @@ Proof.
   - exact CI.
 Qed.
 
-Lemma crun_inv c st ops : wf c -> wfst c st -> forall s, CInv c st s -> CInv c st (crun repaired c s ops).
+Lemma crun_inv c st ops : wf c -> wfst c st -> forallb sync_op ops = true ->
+  forall s, CInv c st s -> CInv c st (crun repaired c s ops).
 Proof.
-  intros W WS. unfold crun. induction ops as [|o ops IH]; intros s CI; simpl; [exact CI|].
-  apply IH. apply cstep_inv; auto.
+  intros W WS. unfold crun. induction ops as [|o ops IH]; intros SY s CI; simpl; [exact CI|].
+  simpl in SY. apply andb_true_iff in SY. destruct SY as [S1 S2].
+  apply IH; auto. apply cstep_inv; auto.
 Qed.
 
 Lemma comp_init_inv c st p0 : Inv c st p0 -> (forall k, blocks_of p0 k = []) -> CInv c st (comp_init p0).
@@ -1140,6 +1148,7 @@ Section CompStatements.
   Variable ops : list cop.
   Hypothesis Hr : wf_range r.
   Hypothesis Hc : configure repaired r = Some p0.
+  Hypothesis Hsync : forallb sync_op ops = true.
   Let c := effective r.
   Let s := crun repaired c (comp_init p0) ops.
 
@@ -1256,3 +1265,198 @@ Definition ex_raw1 : rawcfg :=
 Definition ex_raw_dup : rawcfg :=
   {| r_bs := 64; r_ratio := 0; r_range := Some (1024, 1151); r_max := 1; r_pooling := 1;
      r_outside := [OIp 1681915905; OIp 1681915905]; r_excluded := [] |}.
+
+(* ====================================================================== the component only ever performs pool operations *)
+Lemma run_app v c p l1 l2 : run v c p (l1 ++ l2) = run v c (run v c p l1) l2.
+Proof. unfold run. apply fold_left_app. Qed.
+
+Lemma restore_as_step v c p mk mb :
+  match restore v c p mk mb true with Some p' => p' | None => p end = fst (step v c p (ORestoreIfAbsent mk mb)).
+Proof. cbn [step]. destruct (restore v c p mk mb true); reflexivity. Qed.
+
+Lemma pba_refines v c s sid k dp obs :
+  exists pops, cp_pool (fst (pba_activate v c s sid k dp obs)) = run v c (cp_pool s) pops.
+Proof.
+  unfold pba_activate. destruct (step v c (cp_pool s) (OGoa k obs)) as [p' o] eqn:E.
+  assert (P : p' = run v c (cp_pool s) [OGoa k obs]) by (unfold run; cbn [fold_left]; rewrite E; reflexivity).
+  destruct o as [nw b|e|b| |]; try (exists [OGoa k obs]; exact P).
+  destruct nw; [|exists [OGoa k obs]; exact P].
+  destruct dp; [exists [OGoa k obs]; exact P|].
+  exists [OGoa k obs; ORelease k]. unfold run. cbn [fold_left]. rewrite E. reflexivity.
+Qed.
+
+Lemma cstep_refines v c s o : exists pops, cp_pool (fst (cstep v c s o)) = run v c (cp_pool s) pops.
+Proof.
+  destruct o as [sid k dp obs|sid k obs|sid ok|sid k mk mb dp obs|sid k dl|sid mk mb bulk obs|mk mb|]; cbn [cstep].
+  - destruct (busy s sid); [exists []; reflexivity|]. apply pba_refines.
+  - destruct (busy s sid); [exists []; reflexivity|].
+    destruct (step v c (cp_pool s) (OGoa (pk v k) obs)) as [p' o] eqn:E.
+    exists [OGoa (pk v k) obs]. unfold run; cbn [fold_left]. rewrite E.
+    destruct o as [nw b|e|b| |]; try reflexivity. destruct nw; reflexivity.
+  - destruct (find _ (cp_pend s)) as [e|]; [|exists []; reflexivity].
+    destruct ok.
+    + exists []. destruct (v_late v && _); reflexivity.
+    + exists [ORelease (snd (fst e))]. reflexivity.
+  - destruct (busy s sid); [exists []; reflexivity|].
+    pose proof (restore_as_step v c (cp_pool s) mk mb) as RS.
+    destruct (restore v c (cp_pool s) mk mb true) as [p'|] eqn:H; [|apply pba_refines].
+    destruct dp.
+    + exists [ORestoreIfAbsent mk mb]. unfold run; cbn [fold_left]. rewrite <- RS. reflexivity.
+    + exists [ORestoreIfAbsent mk mb; ORelease (pk v mk)]. unfold run. cbn [fold_left]. rewrite <- RS. reflexivity.
+  - destruct (negb (existsb (N.eqb sid) (cp_sess s)) && _); [exists []; reflexivity|].
+    destruct (blocks_of (cp_pool s) (pk v k)); [exists []; reflexivity|].
+    exists [ORelease (pk v k)]. reflexivity.
+  - destruct (negb (bulk =? 0)).
+    { destruct (busy s sid); [exists []; reflexivity|]. apply pba_refines. }
+    pose proof (restore_as_step v c (cp_pool s) mk mb) as RS.
+    destruct (restore v c (cp_pool s) mk mb true) as [p'|] eqn:H.
+    + exists [ORestoreIfAbsent mk mb]. unfold run; cbn [fold_left]. rewrite <- RS. reflexivity.
+    + exists []. destruct (v_validate v); reflexivity.
+  - pose proof (restore_as_step v c (cp_pool s) mk mb) as RS.
+    destruct (restore v c (cp_pool s) mk mb true) as [p'|] eqn:H.
+    + exists [ORestoreIfAbsent mk mb]. unfold run; cbn [fold_left]. rewrite <- RS. reflexivity.
+    + exists []. reflexivity.
+  - exists []. reflexivity.
+Qed.
+
+Lemma crun_refines v c ops : forall s, exists pops, cp_pool (crun v c s ops) = run v c (cp_pool s) pops.
+Proof.
+  unfold crun. induction ops as [|o ops IH]; intros s; simpl; [exists []; reflexivity|].
+  destruct (cstep_refines v c s o) as (l1 & E1). destruct (IH (fst (cstep v c s o))) as (l2 & E2).
+  exists (l1 ++ l2). rewrite E2, E1, run_app. reflexivity.
+Qed.
+
+(* pool statements for the pool inside the component, for EVERY component history: late completions in any
+   order included *)
+Lemma comp_pool_props_all r p0 ops : wf_range r -> configure repaired r = Some p0 ->
+  let c := effective r in
+  let s := crun repaired c (comp_init p0) ops in
+  (forall k1 k2 b1 b2, k1 <> k2 -> In b1 (blocks_of (cp_pool s) k1) -> In b2 (blocks_of (cp_pool s) k2) ->
+     b_ip b1 = b_ip b2 -> b_end b1 < b_start b2 \/ b_end b2 < b_start b1) /\
+  (forall k b, In b (blocks_of (cp_pool s) k) ->
+     In (b_ip b) (flat_map expand (r_outside r)) /\ ~ In (b_ip b) (r_excluded r) /\
+     c_pstart c <= b_start b /\ (b_start b - c_pstart c) mod c_bs c = 0 /\
+     b_end b = b_start b + c_bs c - 1 /\ b_end b <= c_pend c) /\
+  (forall k, N.of_nat (length (blocks_of (cp_pool s) k)) <= c_max c) /\
+  (c_paired c = true -> forall k b1 b2, In b1 (blocks_of (cp_pool s) k) -> In b2 (blocks_of (cp_pool s) k) -> b_ip b1 = b_ip b2).
+Proof.
+  intros Hr Hc c s. destruct (crun_refines repaired c ops (comp_init p0)) as (pops & E).
+  subst s. rewrite E. cbn [comp_init cp_pool]. repeat split.
+  - apply (disjoint_all r p0 pops Hr Hc).
+  - apply (in_range_all r p0 pops Hr Hc k b H).
+  - apply (in_range_all r p0 pops Hr Hc k b H).
+  - apply (in_range_all r p0 pops Hr Hc k b H).
+  - apply (in_range_all r p0 pops Hr Hc k b H).
+  - apply (in_range_all r p0 pops Hr Hc k b H).
+  - apply (in_range_all r p0 pops Hr Hc k b H).
+  - apply (limit_all r p0 pops Hr Hc).
+  - intros P k b1 b2. apply (paired_all r p0 pops Hr Hc k b1 b2 P).
+Qed.
+
+(* an activation that reports a block gives the subscriber (VRF and address) that very block *)
+Lemma activation_grants_own_block c s sid k obs s' nw b :
+  cstep repaired c s (CActivate sid k true obs) = (s', RBlock nw b) -> In b (blocks_of (cp_pool s') k).
+Proof.
+  cbn [cstep]. rewrite pk_repaired. destruct (busy s sid); [discriminate|].
+  unfold pba_activate. cbn [step].
+  destruct (blocks_of (cp_pool s) k) as [|b0 r0] eqn:B.
+  - destruct (do_alloc c (cp_pool s) k obs) as [p' o] eqn:D.
+    destruct (do_alloc_shape _ _ _ _ _ _ D) as [(b1 & addrs' & -> & E)|[-> Hno]].
+    + intros H; inversion H; subst. cbn [commit_mapping cp_pool]. rewrite blocks_of_add, N.eqb_refl.
+      apply in_or_app. simpl; auto.
+    + destruct o as [nw1 b1|e|b1| |]; intros H; inversion H. exfalso. eapply Hno; reflexivity.
+  - intros H; inversion H; subst. cbn [commit_mapping cp_pool]. rewrite B. simpl; auto.
+Qed.
+
+(* ====================================================================== several pools *)
+Lemma nth_error_upd_nth {A} (f : A -> A) l : forall i j,
+  nth_error (upd_nth i f l) j = if Nat.eqb j i then option_map f (nth_error l j) else nth_error l j.
+Proof.
+  induction l as [|x l IH]; intros [|i] [|j]; simpl; auto.
+  - destruct (Nat.eqb j i); reflexivity.
+Qed.
+
+Lemma mrun_proj v ops : forall ps i cp, nth_error ps i = Some cp ->
+  exists pops, nth_error (mrun v ps ops) i = Some (fst cp, run v (fst cp) (snd cp) pops).
+Proof.
+  unfold mrun. induction ops as [|[j o] ops IH]; intros ps i cp H; simpl.
+  - exists []. destruct cp; exact H.
+  - unfold mstep at 2. cbn [fst snd].
+    assert (H' : nth_error (upd_nth j (fun cp0 => (fst cp0, fst (step v (fst cp0) (snd cp0) o))) ps) i =
+                 Some (if Nat.eqb i j then (fst cp, fst (step v (fst cp) (snd cp) o)) else cp)).
+    { rewrite nth_error_upd_nth, H. destruct (Nat.eqb i j); reflexivity. }
+    destruct (IH _ _ _ H') as (pops & E). destruct (Nat.eqb i j).
+    + exists (o :: pops). cbn [fst snd] in E. exact E.
+    + exists pops. exact E.
+Qed.
+
+Lemma configure_all_nth v rs : forall ps i c p, configure_all v rs = Some ps -> nth_error ps i = Some (c, p) ->
+  exists r, nth_error rs i = Some r /\ c = effective r /\ configure v r = Some p.
+Proof.
+  induction rs as [|r rs IH]; simpl; intros ps i c p H Hn.
+  - inversion H; subst. destruct i; discriminate.
+  - destruct (configure v r) as [p1|] eqn:C1; [|discriminate]. destruct (configure_all v rs) as [ps1|]; [|discriminate].
+    inversion H; subst. destruct i as [|i]; simpl in Hn.
+    + inversion Hn; subst. exists r. auto.
+    + apply (IH ps1 i c p eq_refl Hn).
+Qed.
+
+Lemma share_address_false r1 r2 : share_address r1 r2 = false ->
+  forall ip, In ip (outside_set r1) -> In ip (outside_set r2) -> False.
+Proof.
+  unfold share_address. intros H ip H1 H2.
+  assert (existsb (fun ip0 => existsb (N.eqb ip0) (outside_set r2)) (outside_set r1) = true); [|congruence].
+  apply existsb_exists. exists ip. split; [exact H1|]. apply existsb_exists. exists ip. split; [exact H2|apply N.eqb_refl].
+Qed.
+
+Lemma pools_valid_spec rs : pools_valid rs = true -> forall i j ri rj, (i < j)%nat ->
+  nth_error rs i = Some ri -> nth_error rs j = Some rj -> share_address ri rj = false.
+Proof.
+  induction rs as [|r rs IH]; simpl; intros V i j ri rj L Hi Hj; [destruct i; discriminate|].
+  apply andb_true_iff in V. destruct V as [V1 V2].
+  destruct i as [|i], j as [|j]; simpl in *; try lia.
+  - inversion Hi; subst. rewrite forallb_forall in V1. apply negb_true_iff. apply V1. eapply nth_error_In; eauto.
+  - apply (IH V2 i j); auto. lia.
+Qed.
+
+Lemma mdisjoint rs ps ops : (forall r, In r rs -> wf_range r) -> mconfigure repaired rs = Some ps ->
+  forall i j k1 k2 b1 b2, (i <> j \/ k1 <> k2) ->
+    In b1 (mblocks (mrun repaired ps ops) i k1) -> In b2 (mblocks (mrun repaired ps ops) j k2) ->
+    b_ip b1 = b_ip b2 -> b_end b1 < b_start b2 \/ b_end b2 < b_start b1.
+Proof.
+  intros Hwf Hm i j k1 k2 b1 b2 NE H1 H2 Eip.
+  unfold mconfigure in Hm. cbn [repaired v_xpool] in Hm. simpl in Hm.
+  destruct (pools_valid rs) eqn:V; [|discriminate]. simpl in Hm.
+  unfold mblocks in H1, H2.
+  destruct (nth_error (mrun repaired ps ops) i) as [[c1 q1]|] eqn:N1; [|contradiction].
+  destruct (nth_error (mrun repaired ps ops) j) as [[c2 q2]|] eqn:N2; [|contradiction].
+  cbn [snd] in H1, H2.
+  assert (L : forall i0 c q, nth_error (mrun repaired ps ops) i0 = Some (c, q) ->
+          exists r p0 pops, nth_error rs i0 = Some r /\ c = effective r /\ configure repaired r = Some p0 /\
+                            q = run repaired c p0 pops).
+  { intros i0 c q Hn.
+    assert (LEN : length (mrun repaired ps ops) = length ps).
+    { clear. unfold mrun. revert ps. induction ops as [|o ops IH]; intros ps; simpl; [reflexivity|].
+      rewrite IH. unfold mstep. apply upd_nth_length. }
+    destruct (nth_error ps i0) as [[c0 p0]|] eqn:Np.
+    - destruct (mrun_proj repaired ops ps i0 (c0, p0) Np) as (pops & E). rewrite Hn in E. inversion E; subst.
+      destruct (configure_all_nth _ _ _ _ _ _ Hm Np) as (r & Hr & -> & Hc). exists r, p0, pops. auto.
+    - apply nth_error_None in Np. assert (nth_error (mrun repaired ps ops) i0 <> None) by congruence.
+      apply nth_error_Some in H. lia. }
+  destruct (L _ _ _ N1) as (r1 & p1 & l1 & R1 & -> & C1 & ->).
+  destruct (L _ _ _ N2) as (r2 & p2 & l2 & R2 & -> & C2 & ->).
+  destruct (Nat.eq_dec i j) as [E|NEij].
+  - subst j. rewrite R1 in R2. inversion R2; subst r2. rewrite C1 in C2. inversion C2; subst p2.
+    destruct NE as [NE|NE]; [congruence|].
+    (* same pool: both states are the same run *)
+    rewrite N1 in N2. inversion N2 as [E2]. rewrite <- E2 in H2.
+    eapply (disjoint_all r1 p1 l1); eauto. apply Hwf. eapply nth_error_In; eauto.
+  - exfalso.
+    pose proof (in_range_all r1 p1 l1 (Hwf _ (nth_error_In _ _ R1)) C1 k1 b1 H1) as (O1 & _).
+    pose proof (in_range_all r2 p2 l2 (Hwf _ (nth_error_In _ _ R2)) C2 k2 b2 H2) as (O2 & _).
+    rewrite Eip in O1.
+    destruct (Nat.lt_ge_cases i j) as [Lt|Ge].
+    + apply (share_address_false r1 r2 (pools_valid_spec rs V i j r1 r2 Lt R1 R2) (b_ip b2) O1 O2).
+    + assert (Lt : (j < i)%nat) by lia.
+      apply (share_address_false r2 r1 (pools_valid_spec rs V j i r2 r1 Lt R2 R1) (b_ip b2) O2 O1).
+Qed.
